@@ -134,6 +134,9 @@ def run(ctx):
     single_owner_rule(ctx, program, "R09.15")
     ctx.rule("R09.16", "new subsystem: a manager is in its context's manager set (which stop() walks) before its start is entered; while the context loads it is queued, not started", floor=2)
     tracked_before_start_rule(ctx, program, "R09.16")
+    ctx.rule("R09.17", "the set of entities a trigger unsubscribes at stop is the trigger's own object: it is built (set(...), a scan result), never the very list/set the script "
+             "passed as watch= (which the script may change later - the removed entities would stay subscribed for ever)", floor=3)
+    own_ident_rule(ctx, program, "R09.17")
     ctx.rule("R09.14", "new subsystem: the stop of a running manager whose function variable died begins inside the finaliser (eagerly started task), not in a later loop iteration", floor=1)
     eager_stop_rule(ctx, program, "R09.14")
 
@@ -450,6 +453,25 @@ def single_owner_rule(ctx, program, rid):
                       key=f"shared EvalFunc {site.func.id} <- {', '.join(shared)}", node=site, rel="eval.py")
     if n_sites < 3:
         raise AnalysisError(f"only {n_sites} EvalFuncVar construction sites found")
+
+
+def own_ident_rule(ctx, program, rid):
+    """Ownership of the subscription key sets: every value stored in <trigger>.state_trig_ident is freshly built."""
+    n = 0
+    for uid in ("trigger.py::TrigInfo.trigger_watch", "trigger.py::TrigInfo.__init__", "decorators/state.py::StateTriggerDecorator.validate"):
+        fn = program.func(uid)
+        for a in [x for x in body_walk(fn) if isinstance(x, ast.Assign) and any(norm(t) == "self.state_trig_ident" for t in x.targets)]:
+            n += 1
+            v = a.value
+            if isinstance(v, ast.Await):
+                v = v.value
+            fresh = isinstance(v, (ast.Call, ast.Set, ast.SetComp, ast.Constant, ast.BinOp))
+            ctx.check(fresh, rid, uid, f"`{short(a)}` stores a container of its own",
+                      msg=f"{uid}: `{short(a)}` makes the trigger's subscription set the same object as `{short(v)}` (supplied by the script): if the script changes it after the trigger "
+                      f"started, stop() unsubscribes the changed set and the entities removed from it stay subscribed (the dead trigger's queue keeps receiving their changes)",
+                      key=f"ident alias {short(v)}", node=a, rel=uid.split("::")[0])
+    if n < 3:
+        raise AnalysisError(f"only {n} assignments of state_trig_ident found")
 
 
 def tracked_before_start_rule(ctx, program, rid):
